@@ -20,6 +20,9 @@
                                  the individual steps of both wakers
      c02_unparked_threads_enabled, c02_timed_wait_released_by_clock, c02_clock_can_advance, c02_finished_threads_idle
                                  nothing but futex_wait blocks a thread; a timed sleeper is released by the clock
+     c02_wake_batch_tso, c02_wake_single_tso, c02_wake_batch_without_fence_refuted
+                                 the same waker / waiter race on an explicit store-buffer (TSO) machine, every execution, with
+                                 the fences regenerated from the source
      c02_wake_tests_match_waiter_bit, c02_timeout_refresh, c02_memory_order_obligations
                                  the regenerated `<= UINT16_MAX` tests, `+ UINT16_MAX + 1`, the timeout refresh and the orders
    PARTIAL - NOT PROVED: c02_no_deadlock_statement (below): for balanced programs of blocking ops with one-sided threads some
@@ -33,7 +36,8 @@
    versions compared through 16-bit words, as the code does) admits the ABA "waiter pre-empted for exactly 2^15 rounds". *)
 From Coq Require Import ZArith List Bool.
 Require Import Verif.Gen.Gen_bounded_queue Verif.Conc.Machine Verif.BQ.BQModel Verif.BQ.BQProofs.
-Require Import Verif.BQ.BQInvDefs Verif.BQ.BQInvStep Verif.BQ.BQInvMain Verif.BQ.BQInvThm Verif.BQ.BQWake Verif.BQ.BQFifo Verif.BQ.BQTry.
+Require Import Verif.BQ.BQInvDefs Verif.BQ.BQInvStep Verif.BQ.BQInvMain Verif.BQ.BQInvThm Verif.BQ.BQWake Verif.BQ.BQFifo Verif.BQ.BQTry Verif.BQ.BQTso.
+Require Import Verif.WM.TSO Verif.WM.Litmus Verif.WM.LitmusProofs.
 Import ListNotations.
 Local Open Scope Z_scope.
 
@@ -134,6 +138,32 @@ Theorem c02_finished_threads_idle : forall k progs s u thu, usage_ok k progs = t
   nth_error (threads s) u = Some thu -> thread_done thu = true -> tpc thu = Idle.
 Proof. exact bq_finished_idle. Qed.
 Print Assumptions c02_finished_threads_idle.
+
+(* ---- store-buffer (TSO) half of "no lost wakeup": the batch waker / waiter skeleton on the explicit store-buffer machine of
+   coq/WM.  waker = 16-bit relaxed version store; [the fence of deal_n_continuously / try_deal_n_continuously as regenerated
+   from the source: present in the skeleton iff it is seq_cst]; load of the waiter half (wakeup_waiters).  waiter = CAS-set
+   waiter bit while the version is still old; futex_wait's kernel-side compare.  For EVERY schedule of instruction steps and
+   store-buffer flushes no execution parks the waiter while the waker misses its waiter bit.  Weakening or removing either
+   fence in the source flips the regenerated flag and this theorem fails; c02_wake_batch_without_fence_refuted is the
+   statement that an execution then exists (bin/check prints it as the replay of a wm- violation).  The single-element waker
+   is one exchange (read-modify-write) of the whole word: safe on the store-buffer machine without any fence. *)
+Theorem c02_wake_batch_tso : forall sch,
+  (final (run (init [waker deal_n_fence_is_seq_cst; waiter]) sch) = true ->
+   lost_wakeup (result (run (init [waker deal_n_fence_is_seq_cst; waiter]) sch)) = false) /\
+  (final (run (init [waker try_deal_n_fence_is_seq_cst; waiter]) sch) = true ->
+   lost_wakeup (result (run (init [waker try_deal_n_fence_is_seq_cst; waiter]) sch)) = false).
+Proof. exact bq_wake_batch_tso. Qed.
+Print Assumptions c02_wake_batch_tso.
+
+Theorem c02_wake_single_tso : xchg_waker_is_rmw = true /\
+  forall sch, final (run (init [xchg_waker; waiter]) sch) = true ->
+              xchg_lost (result (run (init [xchg_waker; waiter]) sch)) = false.
+Proof. exact bq_wake_single_tso. Qed.
+Print Assumptions c02_wake_single_tso.
+
+Theorem c02_wake_batch_without_fence_refuted : batch_wake_safe false = false.
+Proof. exact batch_wake_unfenced_refuted. Qed.
+Print Assumptions c02_wake_batch_without_fence_refuted.
 
 (* ---- full-strength statement that is NOT proved (see header): kept visible, checked by exploration + monitors ---- *)
 Definition balanced (progs : list (list op)) : Prop :=
